@@ -57,6 +57,7 @@ static std::map<uintptr_t, Region>::iterator mem_find(const void* p) {
   auto it = g_mem.upper_bound((uintptr_t)p); if (it == g_mem.begin()) return g_mem.end(); --it;
   if ((uintptr_t)p < it->first + it->second.n) return it; return g_mem.end(); }
 int mem_state(const void* p) noexcept { auto it = mem_find(p); return it == g_mem.end() ? 0 : it->second.state; }
+int mem_tag(const void* p) noexcept { auto it = mem_find(p); return it == g_mem.end() ? -1 : it->second.tag; }
 void mem_reset() noexcept { g_mem.clear(); g_uad.clear(); }
 void report_uad(const void* addr, int kind) noexcept {
   auto it = mem_find(addr); g_uad.push_back(Uad{t_self, addr, it == g_mem.end() ? -1 : it->second.tag, kind, g_res.steps}); }
